@@ -13,6 +13,7 @@ from pathlib import Path
 
 from lib import (Check, COMMON_TRUSTED, NCPU, REPO, VERIF, coq_bool, coq_list, coq_str, coq_z, known_for,
                  parse_nat_list, run_coq_files, run_py)
+import c07_disklib
 
 PROP = "C07"
 
@@ -315,6 +316,24 @@ def bad_condition(line: str, extra_kinds=()):
     return None
 
 
+# (round 4) one line = ONE command.  The commands JMC generates in front of a condition end in `scoreboard players set|add|remove
+# <holder> <objective> <integer>`: nothing may follow the integer on that line (ast_to_strings joined two blocks of pre-commands
+# without a newline: `... set __logic__0 __variable__ 1data modify storage ...`).
+def glued_command(line: str):
+    body = line[1:] if line.startswith("$") else line
+    ws = top_level_words(body)
+    for i in range(len(ws) - 5):
+        if ws[i] == "scoreboard" and ws[i + 1] == "players" and ws[i + 2] in ("set", "add", "remove") and (
+                i == 0 or (ws[i - 1] == "run" and ws[0] == "execute")):
+            value, rest = ws[i + 5], ws[i + 6:]
+            if "$(" in value:
+                return None
+            if not re.fullmatch(r"-?\d+", value) or rest:
+                return " ".join(ws[i:i + 6 + min(len(rest), 3)])
+            return None
+    return None
+
+
 def custom_conditions(job) -> set:
     return set(re.findall(r"^[ \t]*#condition[ \t]+(\S+)", job.get("header") or "", re.M))
 
@@ -343,6 +362,8 @@ def json_refs(is_func_tag: bool, text: str):
                 out.append(("func", v))
         elif is_func_tag and t.startswith('"'):
             v = t[1:].split('"')[0]
+            if v == "id" and t.startswith('"id": "'):
+                v = t[len('"id": "'):].split('"')[0]      # (round 4) an entry written as {"id": "<loc>", "required": ...}
             if v.startswith("#"):
                 if ":" in v[1:]:
                     out.append(("tag", v[1:]))
@@ -368,6 +389,22 @@ def oracle(job, res) -> list[dict]:
         if kind == "func":
             return f"VIRTUAL/data/{n}/{ff}/{path}.mcfunction" in files
         return f"VIRTUAL/data/{n}/tags/{ff}/{path}.json" in files
+
+    stored_funcs = {op[1] for op in res.get("ops") or [] if op[0] == "fset"}
+    stored_jsons = {op[1] for op in res.get("ops") or [] if op[0] == "jset" and len(op) > 3 and op[3]}
+
+    def defined_by_program(kind, loc):
+        """(round 4) a reference the user wrote literally (vanilla syntax) is the user's business only if the program does not
+        define its target: `function #ns:t1` next to `new tags.function(t1) {...}` (spelled like the folder of the pack
+        format) or `function ns:a/b` next to `function a.b() {...}` must resolve"""
+        n, path = loc.split(":", 1)
+        key = path if n == ns else f"{n}/{path}"
+        if kind == "func":
+            return key in stored_funcs
+        # judged on the SOURCE: `new tags.<folder of this pack format>(<name>)` (a tag JMC files somewhere else is JMC's failure)
+        name = re.escape(path.replace("/", ".") if n == ns else n + "." + path.replace("/", "."))
+        return (re.search(rf"new\s+tags\.{ff}\s*\(\s*{name}\s*\)", src, re.I) is not None
+                or (f"tags/{ff}/{path}" if n == ns else f"{n}/tags/{ff}/{path}") in stored_jsons)
 
     for path, content in files.items():
         m = re.match(r"^VIRTUAL/data/([^/]*)/(.*)\.(mcfunction|json)$", path)
@@ -402,6 +439,11 @@ def oracle(job, res) -> list[dict]:
                     fails.append(dict(kind="not-a-condition", path=path, line_no=i + 1, line=line[:300], condition=bc,
                                       user_literal=bc in src))
                     break
+                gl = glued_command(line)
+                if gl:
+                    fails.append(dict(kind="two-commands-on-one-line", path=path, line_no=i + 1, line=line[:400], at=gl,
+                                      user_literal=any(q + line + q in src for q in ('"', "'")) or gl in src))
+                    break
                 if line != "" and (line.strip() == "" or re.search(r"(^| )run ?$", line)):
                     # a line that is not a command: blank, or an `execute ... run` with nothing after it
                     fails.append(dict(kind="incomplete-command", path=path, line_no=i + 1, line=line[:300]))
@@ -413,7 +455,7 @@ def oracle(job, res) -> list[dict]:
             if loc.split(":", 1)[0] not in own:
                 continue
             if not resolves(kind, loc):
-                literal = loc in src or (bool(emb) and loc.rstrip(".") in src)
+                literal = (loc in src or (bool(emb) and loc.rstrip(".") in src)) and not defined_by_program(kind, loc)
                 fails.append(dict(kind="dangling-reference", path=path, ref=("#" if kind == "tag" else "") + loc,
                                   user_literal=literal, embedded=bool(emb),
                                   line=next((l for l in content.split("\n") if loc in l), "")[:300]))
@@ -450,6 +492,8 @@ RULES = {
     "C07-funcmap-raw-keyword": lambda job, res, f: f["kind"] == "dangling-reference" and re.search(
         r"/(right_click_setup|trigger_setup)/", f["path"]) is not None,
     "C07-lazy-call-as-condition": lambda job, res, f: f["kind"] == "not-a-condition",
+    "C07-precommand-blocks-glued": lambda job, res, f: f["kind"] == "two-commands-on-one-line" and re.search(
+        r" (0|1)(data|execute|scoreboard) ", f.get("line", "")) is not None,
     EMPTY_AFTER_RUN_ID: lambda job, res, f: f["kind"] == "incomplete-command" and re.search(r" run ?$", f.get("line", "")) is not None,
     "C07-json-replaces-function-tag": lambda job, res, f: f["kind"] in ("load-not-registered", "tick-not-registered")
         and re.search(r"new\s+tags?\.functions?\s*\(\s*minecraft\.(load|tick)\s*\)", job.get("src", "")) is not None,
@@ -487,6 +531,9 @@ class Gen:
     def cond(self):
         r = self.rng
         atoms = ["$a > 1", "$b == 2", "$c <= $a", "$d matches 1..5", "entity @s[tag=x]", "!$e"]
+        if self.builtins:
+            # (round 4) conditions that bring commands of their own in front of the `execute if`
+            atoms = atoms + ['String.isEqual(a:b::c, "abc")', "Object.isEqual(a:b::c, a:b::d)", "Timer.isOver(cd)"]
         k = r.choice([1, 1, 1, 2, 3])
         if k == 1:
             return r.choice(atoms)
@@ -639,6 +686,18 @@ ADVERSARIAL = [
                                     cert="LOAD=__load__\nTICK=__tick__\nPRIVATE=jmc/p\nVAR=__variable__\nINT=__int__\nSTORAGE=__storage__")),
     ("link-call", dict(src='function a() { other.lib.f(); }', header="#link other")),
     ("vanilla-literal", dict(src='function a() { function TEST:nothere; }')),
+    # (round 4) references to function TAGS: `function #ns:tag`, `schedule function #ns:tag`, after `run`, a tag naming a tag,
+    # entries written as objects; both folder spellings; a tag / an entry that does not exist is the user's literal text
+    ("tag-forms", dict(src='function a.b() { say "1"; }\nnew tags.function(t1) {"values": ["TEST:a/b", "#TEST:t2"]}\n'
+                           'new tags.function(t2) {"values": [{"id": "TEST:a/b", "required": false}, {"id": "#TEST:t1", "required": false}]}\n'
+                           'function c() { function #TEST:t1; schedule function #TEST:t2 5t; execute as @a run function #TEST:t2; }', pack_format=48)),
+    ("tag-forms-legacy", dict(src='function a.b() { say "1"; }\nnew tags.functions(t1) {"values": ["TEST:a/b", "#TEST:t2"]}\n'
+                                  'new tags.functions(t2) {"values": ["#TEST:t1"]}\nfunction c() { function #TEST:t1; schedule function #TEST:t2 5t replace; }',
+                              pack_format=15)),
+    ("tag-missing", dict(src='function c() { function #TEST:nothere; }\nnew tags.function(t1) {"values": [{"id": "TEST:gone", "required": true}]}', pack_format=48)),
+    ("tag-wrong-folder", dict(src='function a() { say "1"; }\nnew tags.functions(t1) {"values": ["TEST:a"]}\nfunction c() { function #TEST:t1; }', pack_format=48)),
+    ("tag-override", dict(src='function minecraft.a() { say "1"; }\nnew tags.function(minecraft.t1) {"values": ["minecraft:a"]}\n'
+                              'function c() { function #minecraft:t1; }', header="#override minecraft", pack_format=48)),
     ("credits", dict(src='function a() { if ($x > 1) { say "1"; say "2"; } }', header='#credit "made by me"\n#credit\n#credit "function TEST:not_a_ref"')),
     ("tick-empty", dict(src='function __tick__() { }')),
     ("tick-user", dict(src='function __tick__() { say "1"; }')),
@@ -1077,6 +1136,37 @@ TICK_GENERATORS = {
 TICK_USER = ['function @TICK@() { say "user tick"; }', 'function @TICK@() { }', 'function @TICK@() { say "u1"; if ($x > 1) { say "u2"; say "u3"; } }', ""]
 
 
+# (round 4) conditions of which TWO parts bring commands in front of the `execute if`: the `__logic__` flags of `||` / `!( && )`
+# groups and the pre-commands of String.isEqual / Object.isEqual, in every statement that takes a condition
+PRE_S = ['String.isEqual(a:b::c, "abc")', "Object.isEqual(a:b::c, a:b::d)", "String.isEqual(@s::SelectedItem.id, 'minecraft:stick')"]
+PRE_CONDS = ["($a > 1 || $b > 2) && @S@", "@S@ && ($a > 1 || $b > 2)", "!($a > 1 && $b > 2) && @S@", "($a > 1 || @S@) && ($b > 2 || @S2@)",
+             "@S@ && @S2@", "($a > 1 || $b > 2) && ($c > 1 || $d > 2)", "!@S@", "!($a > 1 || $b > 2) || @S@", "@S@ || @S2@",
+             "($a > 1 || $b > 2) && !@S@ && entity @s[tag=t]", "@S@"]
+PRE_STMTS = ['if (@C@) { say "x"; say "y"; }', 'if (@C@) { say "x"; }', 'if ($z == 1) { say "a"; } else if (@C@) { say "b"; say "c"; } else { say "d"; }',
+             'if (@C@) { say "a"; } else if (@C2@) { say "b"; } else if (@C@) { say "c"; say "c2"; }', 'while (@C@) { say "w"; $a++; }',
+             'do { say "w"; $a++; } while (@C@);', 'for ($i = 0; @C@; $i++) { say "f"; }',
+             'if (@C@) { if (@C2@) { say "n"; say "n2"; } } else { while (@C2@) { $b++; } }']
+
+
+def precommand_jobs(rng, tier):
+    jobs = []
+    combos = [(ci, si) for ci in range(len(PRE_CONDS)) for si in range(len(PRE_STMTS))]
+    if tier == "quick":
+        # every condition form in an `if` and a `while`, plus a sample of the rest
+        keep = {(ci, si) for ci in range(len(PRE_CONDS)) for si in (0, 4)}
+        keep |= set(rng.sample(combos, 30))
+        combos = sorted(keep)
+    for k, (ci, si) in enumerate(combos):
+        def fill(c):
+            return c.replace("@S@", PRE_S[k % len(PRE_S)]).replace("@S2@", PRE_S[(k + 1) % len(PRE_S)])
+        src = PRE_STMTS[si].replace("@C@", fill(PRE_CONDS[ci])).replace("@C2@", fill(PRE_CONDS[(ci + 3) % len(PRE_CONDS)]))
+        cert = CERTS[k % len(CERTS)]
+        place = ("function f() { %s }" % src) if k % 3 else ("class k { function m() { %s } }" % src)
+        jobs.append((f"precommand:{ci}:{si}", dict(src=place.replace("__variable__", cert["VAR"]), cert=cert_text(cert),
+                                                   pack_format=[48, 15, 61, 26][k % 4], namespace=NAMESPACES[k % len(NAMESPACES)])))
+    return jobs
+
+
 def tick_shape_jobs(rng, tier):
     out, k = [], 0
     gens = list(TICK_GENERATORS)
@@ -1320,6 +1410,15 @@ def main(tier: str) -> int:
         "assemble; which source constructs define a name without a file (@lazy, @if, json) is NOT modelled: the decorator x reference matrix "
         "(harness/c07.py DECO_DEFS x REF_FORMS x every function-typed built-in argument) exercises them and the replay compares the verdict",
         "the vocabulary of `execute if|unless` condition kinds (CONDITION_KINDS) is a written specification checked by the direct scan only",
+        "(round 4) Model/AllocDisk.v: hand-written port of the non-virtual part of compiling.build (read_func_tag, merged_func_tag, deletion with "
+        "#static shields, make_cert, #copy, load / tick tag writes, the tick clean-up, function and json writes) on a tree of regular files; tied to "
+        "the repo by harness/c07_disk.py: real `compile_jmc` / read_header+read_cert+Lexer+build runs into a real output directory (first build and "
+        "rebuilds, #copy / #static / left-over / previous-output tag files, custom jmc.txt), the output directory read back before and after each "
+        "build, Run.C07.dsummary compares the predicted tree with the real one (tag files as parsed JSON: other keys + list of string values; "
+        "everything else byte for byte).  Outside: pack.mcmeta, directories, tag entries that are objects, a json written onto a tag path "
+        "(hypothesis disk_tag_free, evaluated in Coq per build), interrupted builds (C10/C11)",
+        "`one command per line` beyond non-empty / newline-free lines is checked by the direct scan only: first word in the command vocabulary, and "
+        "nothing after the integer of a generated `scoreboard players set|add|remove <holder> <objective> <integer>` (glued_command)",
         "references inside quoted text (`/function ns:x` in click events) and the test that a line is a complete command (not blank, "
         "no `execute ... run` with nothing behind it) are checked by the direct scan of the real output only; Model/Alloc.v's "
         "scanners and C07_lines speak about word-separated references and non-empty newline-free lines",
@@ -1392,15 +1491,16 @@ def main(tier: str) -> int:
     decoref = deco_ref_jobs(ck.rng, tier, registry, probe_hits)
     jobs.extend(decoref)
     jobs.extend(tick_shape_jobs(ck.rng, tier))
+    jobs.extend(precommand_jobs(ck.rng, tier))
     results = trace_jobs([j for _, j in jobs])
 
     phase("trace")
-    # the Coq replay of the decorator x reference matrix: quick = half of it drawn from ck.rng plus every compile the direct
+    # the Coq replay of the decorator x reference matrix (and, round 4, of the pre-command shapes): quick = 35 % of it (round 4; was half) drawn from ck.rng plus every compile the direct
     # scan objects to (the scan and called_without_file look at ALL of them); thorough = all
     replay_skip = set()
     if tier == "quick":
         for i, ((origin, job), res) in enumerate(zip(jobs, results)):
-            if origin.startswith("decoref:") and ck.rng.random() >= 0.5 and not (res["ok"] and res.get("cfg") and oracle(job, res)):
+            if origin.startswith(("decoref:", "precommand:")) and ck.rng.random() >= 0.35 and not (res["ok"] and res.get("cfg") and oracle(job, res)):
                 replay_skip.add(i)
     terms, tidx, unsupported = [], [], []
     for i, ((origin, job), res) in enumerate(zip(jobs, results)):
@@ -1460,6 +1560,11 @@ def main(tier: str) -> int:
             ck.violation(dict(kind=f"hypothesis-{name}", what=f"a real accepted compile is {name} in the model but the scan of its output found nothing",
                               origin=origin, job=job), no_input=True)
 
+    phase("verdicts")
+    # ---- (round 4) DISK builds: first build and rebuilds into the same output directory, #copy / #static / left-over function tags
+    disk_cov = c07_disklib.run_disk(ck, tier, CERTS, reported)
+    phase("disk")
+
     origins = {}
     for (origin, _), res in zip(jobs, results):
         k = origin.split(":")[0]
@@ -1468,11 +1573,12 @@ def main(tier: str) -> int:
         origins[k][1] += 1 if res["ok"] else 0
     nops = [len(r["ops"]) for r in results]
     ck.cov.update(dict(
-        evaluations=len(terms) + len(conv) + len(fmt),
+        evaluations=len(terms) + len(conv) + len(fmt) + disk_cov.get("replayed_in_coq", 0),
         distinct_nontrivial=len({json.dumps(j, sort_keys=True) for (_, j), r in zip(jobs, results)
                                  if any(op[0] in ("pset", "jset", "called") for op in r["ops"])}),
         rule="a case = one traced real compile (program x namespace x pack_format x jmc.txt names x header); non-trivial = its trace stores at least "
-             "one private function / json / user call; plus one case per (name, prefix, lower) for convention_jmc_to_mc and per (path, overrides) for format_func_path",
+             "one private function / json / user call; plus one case per (name, prefix, lower) for convention_jmc_to_mc and per (path, overrides) for format_func_path; "
+             "plus one case per traced real DISK build (history x build index: program, header, previous tree, #copy tree, statics)",
         programs=len(jobs), accepted_compiles=n_ok, origins={k: dict(total=v[0], accepted=v[1]) for k, v in origins.items()},
         builtins_in_registry=len(registry), builtin_probes_compiling=n_probe_ok, builtin_probes_failed=probe_failed,
         unsupported=unsupported[:20], n_unsupported=len(unsupported),
@@ -1480,20 +1586,23 @@ def main(tier: str) -> int:
         disagreements_checked=len(mism), undisciplined=len(ev["undisciplined"]), not_closed=len(ev["not_closed"]),
         failing_inputs=n_fail_inputs, user_literal_references_skipped=literal_skipped,
         empty_private_functions=empty_private_coverage(jobs, results), builtin_probes_emptied=n_emptied_probes,
-        decorator_x_reference=decoref_coverage(jobs, results, replay_skip, ev), phase_seconds=phases,
+        decorator_x_reference=decoref_coverage(jobs, results, replay_skip, ev), phase_seconds=phases, disk_builds=disk_cov,
         twin_probes=dict(generated=len(twins), accepted=n_twin_ok,
                          builtins=len({o.split(":")[1] for (o, _), r in zip(twins, tres) if r["ok"]})),
         convention_mode="strict (repaired)" if strict else "pinned (accepts 'a..b')",
         samples=[dict(origin=o, program=j["src"][:300], ops=len(r["ops"]), ok=r["ok"]) for (o, j), r in list(zip(jobs, results))[120:123]],
         correspondence="model verdict + complete file map (paths and contents) == real, per traced compile; disc/closedb/alloc_disc evaluated in Coq per trace; "
                        "every real output scanned for dangling references (word-separated and embedded in quoted text), illegal paths, "
-                       "empty / incomplete command lines, missing tag entries",
+                       "empty / incomplete / glued command lines, missing tag entries; (round 4) per disk build: predicted tree (Model.AllocDisk.dbuild) == tree "
+                       "read back from disk, load / tick registration and closure evaluated in Coq on it, and the direct scan of the real tree",
     ))
     return ck.finish()
 
 
 def replay(path: str) -> int:
     rep = json.loads(Path(path).read_text())
+    if rep.get("disk_job"):
+        return c07_disklib.replay_disk(rep)
     job = rep.get("job")
     if not job:
         print("replay file has no input (no-failing-input-found)")
